@@ -9,7 +9,7 @@ sys.path.insert(0, os.path.dirname(os.path.abspath(__file__)))
 import c10_natkern  # noqa: E402  (kernel level: the real nat.Manager together with the natively compiled nat44.c)
 
 PROP = "C10"
-SPEC = ["Bng.Spec.C10"] + c10_natkern.SPEC + ["Bng.Spec.C10Locks"]
+SPEC = ["Bng.Spec.C10", "Bng.Spec.C10Log"] + c10_natkern.SPEC + ["Bng.Spec.C10Locks"]
 MON = ["overlap", "range", "stable", "attrib"]
 COMPS = [
     V.Component("nat", monitors=MON),
@@ -26,19 +26,38 @@ LEVEL = ("No-overlap, in-range/size (no uint16 wrap), stable-until-released and 
          "writer (`flushhold`) while allocations and releases go on, and then let it finish and flush again (`flushrelease`); "
          "the `attrib` clause includes a record ledger (every observed allocation/release owes exactly one record; duplicates, "
          "strays and records missing after the final flush are failures), proved silent on the model (ledger_silent_on_model). "
+         "Kernel-map failures: with `new … kern` a real kernel subscriber_nat map is attached and read back (`kmap`); `fault on` "
+         "installs a closed duplicate of its handle so that every Put and Delete of the manager fails (model ops commitFail / "
+         "allocFail / deallocFail; theorems failed_delete_keeps_block, failed_put_allocates_nothing, kernel_mirrors_table, "
+         "kernel_blocks_disjoint; witness old_failed_delete_witness). Aliasing: `poke` ops write through the Allocation the API "
+         "returned, over the address slices passed to AllocateNAT / AddPublicIP and over GetPoolStats' result; the model ignores "
+         "them (poke_invisible) and every later observation must agree. Logger (Spec.C10Log over Model/NatLog): two concurrent "
+         "flushes are placed through a verif hook on the logger's write lock (`flushpark`: one flush queued at the lock, an inline "
+         "flush overtakes it), the writer can fail after n records (`wfail`), and in file mode (`bulkf`/`tradf`) the logger writes a "
+         "real rotating file whose rotation is made to fail by renaming the directory away (`rotfail`); theorems "
+         "records_kept_in_order, healthy_flush_writes_everything, file_is_oldest_records, flushed_file_attributes (the file after "
+         "ANY interleaving of calls, flush halves and writer failures is the log of an earlier moment of the history and attributes "
+         "every port to its holder at that moment), witnesses old_flush_reorders_witness / old_write_error_witness. "
          + c10_natkern.LEVEL)
 ASSUME = [
     "each critical section is one atomic step (AllocateNAT: lookup under allocationMu.RLock, then everything under poolMu; "
     "DeallocateNAT and AddPublicIP: one section under poolMu); data races inside a critical section are not modelled",
     "configurations: the model has NewManager's defaults and validation on Go ints (newManager); the theorems hold for every "
     "configuration it accepts (accepted_is_valid); rejected ones (range outside 1-65535, block size outside 1-65535) are generated too and must answer `invalid`",
-    "eBPF maps are nil in the harness (the subscriber_nat Put/Delete is not exercised); IPv6 arguments (rejected) are not generated",
+    "about half of the random sequences run with a real kernel subscriber_nat map (`kern`), the others with nil eBPF maps; a failing "
+    "Put/Delete is produced by a closed duplicate of the map handle (EBADF), which fails BOTH while `fault on`; nat_sessions / nat_reverse / "
+    "eim_table are attached in component natkern only; IPv6 arguments (rejected) are not generated",
     "log time = position in the log; the harness checks that record timestamps never go backwards; the deallocate record's duration_ms is not compared",
     "queued callers acquire the pool mutex in FIFO order (Go's sync.Mutex hands off to parked waiters in queue order)",
     "subscriber-id counter wrap at 2^32 is modelled but not reached",
     "the model's log is the sequence of records in emission order; the logger's buffering is modelled in the driver only (records of a "
     "`buffer` … `flushrelease` stretch are compared when flushed); at most 40 calls per stretch (below the logger's own 50-record auto-flush); "
-    "rotation, file output, the background flushLoop's timing and Stop are not exercised",
+    "the background flushLoop's ticker and Stop are not started: the ticker's flush is a goroutine the harness starts itself; that the inline "
+    "flush overtakes the flush queued at the write lock relies on Go's sync.Mutex not handing the lock to a woken waiter in normal mode "
+    "(a regression of the lock order is then seen with high probability, the fixed code answers the same either way)",
+    "file mode: records are compared at `sync` only (when a record reaches the file depends on the byte length of the JSON lines before it); "
+    "at most 4 calls while `rotfail on`, so that the backlog never spans two rotations - rotated files are named by the second and a second "
+    "rotation within one second overwrites the first rotated file (not examined); compression, MaxAge clean-up and the syslog/CSV/NEL formats are not exercised",
 ] + c10_natkern.ASSUME
 ASSUME = ASSUME + [locks.ASSUME]
 
